@@ -16,7 +16,16 @@ CHECK = {'level': 'model_checking',
             'rewrite': {'sync': ['internal', 'sdk']},
             'gomaxprocs': 2,
             'shards': {'quick': 16, 'thorough': 16},
-            'timeout': {'quick': 900, 'thorough': 3400}}]}
+            'timeout': {'quick': 900, 'thorough': 3400}},
+           {'name': 'race',
+            'pkg': './internal/verifh/core',
+            'run': '^TestVerifC18$',
+            'race': True,
+            'tiers': ['thorough'],
+            'env': {'VERIF_FREE': '1', 'GORACE': 'halt_on_error=0 exitcode=0 log_path={scratch}/race'},
+            'shards': {'quick': 8, 'thorough': 8},
+            'timeout': {'quick': 900, 'thorough': 2400}}
+    ]}
 
 META = {'engines': 'E0 E1 E2',
  'technique': 'stateless DFS over thread interleavings of the real Core (cooperative scheduler, preemption bound 2) at '
